@@ -46,6 +46,16 @@ def gen_cases(tier):
                 continue
             cases.append({"id": i + 1, "raw": [d1, d2], "op": "merge", "swap": False, "cfgs": [None]})
             continue
+        if i % 10 == 7:
+            # an interface-level guarantee of ONE side that is implied only through the connection: the producer bounds its input by
+            # a combination of its outputs, the consumer bounds those outputs and states the resulting bound on the shared input itself
+            a, b, k = rng.randint(1, 4), rng.randint(1, 4), rng.choice([1, 2])
+            d1 = {"inv": ["x"], "outv": ["y1", "y2"], "a": [], "g": [({"x": k, "y1": -k, "y2": -k}, 0)]}
+            d2 = {"inv": ["y1", "y2", "x"], "outv": ["p"], "a": [], "g": [({"y1": 1}, a), ({"y2": 1}, b), ({"x": 1}, a + b + rng.choice([0, 0, 1])), ({"p": 1, "x": -1}, 0)]}
+            if rng.random() < 0.5:
+                d2["g"].reverse()
+            cases.append({"id": i + 1, "raw": [d1, d2], "op": "compose", "swap": False, "cfgs": [([], True, None), ([], True, gen.rorder(rng)), ([], False, None)]})
+            continue
         schema = ["shared", "casc_shared", "indep", "cascade", "casc_extra", "fanout"][i % 6]
         for _ in range(30):
             d1, d2, swap = gen.pair_raw(rng, schema)
